@@ -481,7 +481,7 @@ func asteriskDefineProcess(
 	// block parameter is not one of them, a block is not a positional argument
 	mustBindCt := 0
 	for _, name := range definedArgNames[defineArgIdx+1:] {
-		if base.IsKeySuffix(name) {
+		if base.IsKeySuffix(name) || base.IsDoubleAsteriskPrefix(name) {
 			continue
 		}
 
